@@ -755,6 +755,7 @@ func main() {
 	bfsBudget := flag.Int("bfs-budget", 0, "max BFS cases per configuration (0 = unlimited)")
 	bfsIDs := flag.Int("bfs-ids", 3, "ids in the BFS alphabet")
 	bfsSym := flag.Bool("bfs-sym", false, "enumerate histories up to renaming of ids (ids introduced in increasing order)")
+	bfsNoSymDepth := flag.Int("bfs-nosym-depth", 0, "with -bfs-sym: an additional pass without the id symmetry reduction to this depth")
 	bfsFull := flag.Bool("bfs-full-configs", false, "all configurations (default: the core ones)")
 	nRandom := flag.Int("random", 300, "random histories")
 	randLen := flag.Int("random-len", 60, "max random history length")
@@ -824,9 +825,15 @@ func main() {
 				s, ex := genBFS(e, cfg, *bfsIDs, *bfsDepth, *bfsBudget, *bfsSym)
 				states += s
 				all = all && ex
+				if *bfsSym && *bfsNoSymDepth > 0 {
+					s, ex = genBFS(e, cfg, *bfsIDs, *bfsNoSymDepth, *bfsBudget, false)
+					states += s
+					all = all && ex
+				}
 			}
 			summary["bfs_depth"] = *bfsDepth
 			summary["bfs_up_to_id_renaming"] = *bfsSym
+			summary["bfs_depth_without_id_renaming"] = *bfsNoSymDepth
 			summary["bfs_states"] = states
 			summary["bfs_configurations"] = len(configs(*bfsFull))
 			summary["bfs_exhaustive_to_requested_depth"] = all
